@@ -2104,8 +2104,12 @@ impl TransactionBuilder {
                                 serialization_format: None,
                             };
 
-                            // increase fee
-                            let fee_for_change = self.fee_for_output(&change_output)?;
+                            // increase fee: the output may still receive the rest of the ADA (see below),
+                            // so its fee is computed for the widest coin it can end up holding
+                            let fee_for_change = self.fee_for_output(&TransactionOutput {
+                                amount: fake_change.clone(),
+                                ..change_output.clone()
+                            })?;
                             new_fee = new_fee.checked_add(&fee_for_change)?;
                             if change_left.coin() < min_ada.checked_add(&new_fee)? {
                                 return Err(JsError::from_str("Not enough ADA leftover to include non-ADA assets in a change address"));
